@@ -403,7 +403,7 @@ def _e_invalidation(chk, sites, rule="C20.e", only_classes=None):
                         if isinstance(st, ast.Assign) and isinstance(st.value, ast.Call) and isinstance(st.value.func, ast.Attribute) and st.value.func.attr == "get_or_create":
                             continue
                         n += 1
-                        blk = _enclosing_block(meth, st)
+                        blk = _with_helpers(mod, cls, _enclosing_block(meth, st))
                         resets = [(b, c) for b in blk for c in ast.walk(b) if isinstance(c, ast.Call) and isinstance(c.func, ast.Attribute) and c.func.attr in ("reset", "clear_caches")]
                         full = [c for b, c in resets if not c.args and not c.keywords]
                         construct = f"{mname}::{cname}.{meth.name}[self.{t.attr}]"
@@ -438,17 +438,33 @@ def _e_invalidation(chk, sites, rule="C20.e", only_classes=None):
                                   if isinstance(t, ast.Attribute) and isinstance(t.value, ast.Name) and t.value.id == "self" and t.attr in reads and t.attr != R
                                   and not (isinstance(st, ast.Assign) and isinstance(st.value, ast.Constant) and st.value.value is None)
                                   and not _under_none_guard(meth, st, t.attr)})
-                has_reset = any(isinstance(c, ast.Call) and isinstance(c.func, ast.Attribute) and c.func.attr in ("reset", "clear_caches") for c in ast.walk(meth))
+                eff = _with_helpers(mod, cls, meth.body)
+                has_reset = any(isinstance(c, ast.Call) and isinstance(c.func, ast.Attribute) and c.func.attr in ("reset", "clear_caches") for b in eff for c in ast.walk(b))
                 if not changed or not has_reset:
                     continue
                 clears = any(isinstance(st, ast.Assign) and any(isinstance(t, ast.Attribute) and t.attr == R and isinstance(t.value, ast.Name) and t.value.id == "self" for t in st.targets)
-                             for st in ast.walk(meth))
+                             for b in eff for st in ast.walk(b))
                 chk.check(clears, rule, f"{mname}::{cname}.{meth.name}[slot self.{R}]",
                           f"{meth.name}() changes {changed} and drops the cache but leaves self.{R}, which records the last value computed from them by {s_.method.name}(): "
                           f"readers of {R} keep seeing the value of the old state", sample=f"{meth.name}: self.{R} cleared together with the cache")
     if only_classes is None:
         chk.floor("assignments of factory-read attributes examined", n, 2)
     return n
+
+
+def _with_helpers(mod, cls, stmts, depth=0):
+    """The statements of a block plus the bodies of the instance's own methods it calls (invalidation through a helper)."""
+    out = list(stmts)
+    if depth >= 2:
+        return out
+    for b in stmts:
+        for c in ast.walk(b):
+            if isinstance(c, ast.Call) and isinstance(c.func, ast.Attribute) and isinstance(c.func.value, ast.Name) and c.func.value.id == "self" \
+                    and c.func.attr not in ("reset", "clear_caches", "get_or_create", "make_key"):
+                hit = ri.class_member(mod, cls, c.func.attr)
+                if hit is not None and isinstance(hit[2], ast.FunctionDef) and "property" not in ri.decorators(hit[2]):
+                    out += _with_helpers(hit[0], hit[1], hit[2].body, depth + 1)
+    return out
 
 
 def _under_none_guard(fn, stmt, attr):
